@@ -543,6 +543,9 @@ class Evaluator:
 
         if isinstance(v, _types.ModuleType) and v.__name__ in ("math", "operator", "functools") and not attr.startswith("_"):
             return getattr(v, attr)
+        if v is None or isinstance(v, (int, float, bool, str, tuple, list, dict, set, frozenset)):
+            # what Python does: the interpreted code dereferenced a value that has no such attribute
+            raise AttributeError(f"'{type(v).__name__}' object has no attribute '{attr}'")
         raise Unsupported(f"attribute .{attr} on {type(v).__name__} in {fi.fq}")
 
     def callexpr(self, e, env, fi):
